@@ -23,6 +23,10 @@ type atlasVisit func(r *atlasRun, o *atlasObs, choices []int)
 
 // atlasExplore enumerates scripts and executes each at the requested levels.
 func atlasExplore(c *Ctx, o atlasGenOpts, bound int, flagSets []Flags, lib, cli bool, visit atlasVisit) {
+	atlasExploreWith(c, o, bound, flagSets, lib, cli, visit, nil)
+}
+
+func atlasExploreWith(c *Ctx, o atlasGenOpts, bound int, flagSets []Flags, lib, cli bool, visit atlasVisit, adjust func(r *atlasRun)) {
 	var cur *atlasRun
 	base := freshDir(c.Scratch, "atlas")
 	// every worker generates every script (cheap) and executes its round-robin share (balanced)
@@ -36,6 +40,9 @@ func atlasExplore(c *Ctx, o atlasGenOpts, bound int, flagSets []Flags, lib, cli 
 		for fi, fl := range flagSets {
 			r := *cur
 			r.Fl = fl
+			if adjust != nil {
+				adjust(&r)
+			}
 			if fi > 0 {
 				if _, _, ok, _ := r.model(); !ok {
 					continue // redaction flags only matter when something gets redacted
@@ -401,6 +408,12 @@ func c17Run(c *Ctx) {
 	for tf := 1; tf < len(tmpForms); tf++ {
 		atlasExplore(c, atlasGenOpts{MaxHosts: 2, HostNames: 1, TmpForm: tf}, b-1, []Flags{{}}, true, false, visit)
 		atlasExplore(c, atlasGenOpts{MaxHosts: 2, HostNames: 1, TmpForm: tf}, 0, []Flags{{}}, false, c.Thorough() || tf == 1, visit)
+	}
+	// Atlas mode together with --encrypt: every state of the key path (fresh, valid, too short, not base64, a directory,
+	// parent missing) x the success-side scripts for up to 2 hosts, through the real main().  Whether the job is
+	// accepted is C18's business; whatever happens, no raw download may stay behind.
+	for ks := range atlasKeyStates {
+		atlasExploreWith(c, atlasGenOpts{MaxHosts: 2, HostNames: 1, SuccessOnly: true}, 0, []Flags{{Y: true}}, false, true, visit, func(r *atlasRun) { r.KeyState = ks })
 	}
 }
 
